@@ -148,6 +148,10 @@ class ClassInfo:
         return '<class %s>' % self.qual
 
     # -- hierarchy -------------------------------------------------------------------------
+    def swept_methods(self) -> List['FuncInfo']:
+        """Methods for rules that sweep the whole class: helpers that were looked through at their call sites are left out."""
+        return [m for m in self.methods.values() if not m.looked_through]
+
     def mro(self) -> List['ClassInfo']:
         out = [self]
         for b in self.bases:
@@ -321,6 +325,12 @@ class FuncInfo:
 
     def loc(self, node: Optional[ast.AST] = None) -> str:
         return self.module.loc(node if node is not None else self.node)
+
+    @property
+    def looked_through(self) -> bool:
+        """A helper unknown to the rules whose body was substituted at its call sites (normalise P2): rules that sweep
+        "all methods of the class" skip it, its code is judged where it is called."""
+        return bool(getattr(self.node, '_looked_through', False))
 
 
 class Repo:
